@@ -166,6 +166,14 @@ func entries() []entry {
 		entry{name: "never", mk: func() any { return gozod.Never() },
 			valid: [4]any{"dv", "df", "pv", "pf"}, invalid: [4]any{"dv", "df", "pv", "pf"}, rule: "nilable", okIn: nil, badIn: "x",
 			only: append([]string{"Default:v", "DefaultFunc:v"}, flagOps...)},
+		// the nil type: its own type admits nil; any non-nil prefault is a type error, so only defaults and flags
+		entry{name: "nil", mk: func() any { return gozod.Nil() },
+			valid: [4]any{"dv", "df", "pv", "pf"}, invalid: [4]any{"dv", "df", "pv", "pf"}, rule: "nilable", admitsNil: true, okIn: nil, badIn: "x",
+			only: append([]string{"Default:v", "DefaultFunc:v"}, flagOps...)},
+		entry{name: "complex", mk: func() any { return gozod.Complex128() },
+			valid: [4]any{complex(11, 1), complex(12, 1), complex(13, 1), complex(14, 1)}, invalid: [4]any{complex(11, 1), complex(12, 1), complex(13, 1), complex(14, 1)},
+			rule: "nilable", okIn: complex(50, 1), badIn: "notcomplex",
+			only: append([]string{"Default:v", "DefaultFunc:v", "Prefault:v", "PrefaultFunc:v"}, flagOps...)},
 	)
 	return es
 }
@@ -501,17 +509,15 @@ var allStacks = func() (out []string) {
 	return
 }()
 
-// stacksFor: which wrapper chains a history is run under. Exhaustive part: histories of length <= 1 get every
-// chain of length <= 3, length-2 histories every chain of length <= 2 (thorough: every history every chain);
-// random histories get two random chains.
+// stacksFor: which wrapper chains a history is run under. Exhaustive part: histories of length <= 1 (thorough: <= 2)
+// get every chain of length <= 3, the longer exhaustive histories every chain of length <= 2; random histories
+// get two random chains.
 func stacksFor(r *hx.Rng, h []string, exhaustive, thorough bool) []string {
 	switch {
-	case thorough && exhaustive, len(h) <= 1:
+	case len(h) <= 1, thorough && len(h) <= 2 && exhaustive:
 		return allStacks
 	case exhaustive:
 		return allStacks[:6]
-	case thorough:
-		return []string{hx.Pick(r, allStacks), hx.Pick(r, allStacks), hx.Pick(r, allStacks), hx.Pick(r, allStacks)}
 	}
 	return []string{hx.Pick(r, allStacks), hx.Pick(r, allStacks)}
 }
